@@ -1,4 +1,5 @@
 import GmQuic.Lemmas.SidInv
+import GmQuic.Lemmas.StreamOffer
 import GmQuic.Spec.Rfc9000Streams
 /-!
 C12 — stream limits, stream direction and final size are enforced.
@@ -838,5 +839,195 @@ theorem deliver_reset_final_size (e : Endpoint) (ms : List (Dir × Nat)) (s fina
     (e.deliver ms .resetStream s final 0 false).2 = .err .finalSize := by
   have e2 := (final_size_rules_reset h final hp).2 hv
   simp only [Endpoint.deliver, hl, e2]
+
+/-! ## 6. Each implicitly opened stream is offered to the application exactly once — at the endpoint,
+for ALL interleavings of peer frames, accept polls and the peer's transport parameters becoming ready -/
+
+/-- One step of the endpoint — ANY operation: a peer frame of any kind on any stream id, one poll of
+`accept_bi` / `accept_uni` (Pending or Ready), `drain`, `recv_remote_params`, the peer's source connection id
+becoming known, local opens, MAX_STREAMS, STREAMS_BLOCKED — keeps the offer invariant. -/
+theorem Endpoint.offer_step (e : Endpoint) (op : EOp) (h : Offer e) : Offer (e.step op).1 := by
+  cases op with
+  | acceptBi =>
+    simp only [Endpoint.step]
+    split
+    · exact h
+    · split
+      · exact h
+      · rename_i s t hl
+        rcases h with h | h
+        · exact Or.inl h
+        · right
+          have hb := h.bi
+          rw [hl] at hb
+          have hd := head_dir hb
+          refine ⟨h.rinv, ?_, ?_⟩
+          · show ofDir (e.offered ++ [s]) .bi ++ t = ofDir e.rem.created .bi
+            rw [ofDir_append, ofDir_single_same hd, List.append_assoc]; exact hb
+          · show ofDir (e.offered ++ [s]) .uni ++ e.listenUni = ofDir e.rem.created .uni
+            rw [ofDir_append, ofDir_single_other hd (by decide), List.append_nil]; exact h.uni
+  | acceptUni =>
+    simp only [Endpoint.step]
+    split
+    · exact h
+    · rename_i s t hl
+      rcases h with h | h
+      · exact Or.inl h
+      · right
+        have hu := h.uni
+        rw [hl] at hu
+        have hd := head_dir hu
+        refine ⟨h.rinv, ?_, ?_⟩
+        · show ofDir (e.offered ++ [s]) .bi ++ e.listenBi = ofDir e.rem.created .bi
+          rw [ofDir_append, ofDir_single_other hd (by decide), List.append_nil]; exact h.bi
+        · show ofDir (e.offered ++ [s]) .uni ++ t = ofDir e.rem.created .uni
+          rw [ofDir_append, ofDir_single_same hd, List.append_assoc]; exact hu
+  | drain =>
+    simp only [Endpoint.step]
+    rcases h with h | h
+    · exact Or.inl h
+    · right
+      have b1 := ofDir_of_suffix h.bi
+      have b2 : ofDir e.listenBi .uni = [] := ofDir_other_of_suffix h.bi (by decide)
+      have u1 := ofDir_of_suffix h.uni
+      have u2 : ofDir e.listenUni .bi = [] := ofDir_other_of_suffix h.uni (by decide)
+      cases hr : e.ready
+      · refine ⟨h.rinv, ?_, ?_⟩
+        · show ofDir (e.offered ++ [] ++ e.listenUni) .bi ++ e.listenBi = _
+          rw [List.append_nil, ofDir_append, u2, List.append_nil]; exact h.bi
+        · show ofDir (e.offered ++ [] ++ e.listenUni) .uni ++ [] = _
+          rw [List.append_nil, List.append_nil, ofDir_append, u1]; exact h.uni
+      · refine ⟨h.rinv, ?_, ?_⟩
+        · show ofDir (e.offered ++ e.listenBi ++ e.listenUni) .bi ++ [] = _
+          rw [List.append_nil, ofDir_append, ofDir_append, u2, List.append_nil, b1]; exact h.bi
+        · show ofDir (e.offered ++ e.listenBi ++ e.listenUni) .uni ++ [] = _
+          rw [List.append_nil, ofDir_append, ofDir_append, b2, List.append_nil, u1]; exact h.uni
+  | rparams =>
+    simp only [Endpoint.step]
+    split
+    · exact h
+    · exact h.congr (Same.trans ⟨rfl, rfl, rfl, rfl, rfl, rfl, id⟩ (becomeReady_same _))
+  | rscid =>
+    simp only [Endpoint.step]
+    split
+    · exact h
+    · exact h.congr (Same.trans ⟨rfl, rfl, rfl, rfl, rfl, rfl, id⟩ (becomeReady_same _))
+  | open_ d =>
+    simp only [Endpoint.step]
+    split
+    · exact h
+    · generalize e.loc.step (.alloc d) = st
+      obtain ⟨l', o⟩ := st
+      apply h.congr
+      cases o <;> (try cases d) <;> exact ⟨rfl, rfl, rfl, rfl, rfl, rfl, id⟩
+  | maxStreams d v =>
+    simp only [Endpoint.step]
+    generalize e.loc.step (.maxStreams d v) = st
+    obtain ⟨l', o⟩ := st
+    exact h.congr ⟨rfl, rfl, rfl, rfl, rfl, rfl, id⟩
+  | streamsBlocked d v =>
+    simp only [Endpoint.step]
+    have hf := Remote.step_blocked_frame std e.rem d v
+    have hp := Remote.step_poisoned std e.rem (.blocked d v)
+    generalize e.rem.step std (.blocked d v) = st at hf hp
+    obtain ⟨r', o⟩ := st
+    simp only at hf hp
+    apply h.congr
+    cases o <;> exact same_of_rem rfl rfl rfl rfl hf.1 hf.2.1 hf.2.2 hp
+  | frame k s a b fin =>
+    simp only [Endpoint.step]
+    split
+    · exact h
+    · split
+      · split
+        · exact h
+        · split
+          · exact h
+          · exact h.congr (deliver_same _ _ _ _ _ _ _)
+      · exact h.congr (deliver_same _ _ _ _ _ _ _)
+    · have ha := acceptSid_offer e s h
+      split
+      · exact h
+      · rename_i e1 ms hs; exact ha _ _ _ hs
+      · rename_i e1 ms hs
+        exact (ha _ _ _ hs).congr (deliver_same _ _ _ _ _ _ _)
+
+theorem Endpoint.offer_run (e : Endpoint) (ops : List EOp) (h : Offer e) : Offer (e.run ops) := by
+  induction ops generalizing e with
+  | nil => exact h
+  | cons op ops ih => exact ih _ (e.offer_step op h)
+
+theorem Endpoint.offer_init {role : Role} {lb lu pb pu : Nat} {win : Windows} {k : CtrlSt} {e : Endpoint}
+    (h : Endpoint.new role lb lu pb pu win k = some e ∨ Endpoint.newLate role lb lu pb pu win k = some e) :
+    Offer e := by
+  right
+  rcases h with h | h
+  · unfold Endpoint.new at h
+    split at h
+    · cases h
+    · split at h
+      · cases h
+      · injection h with h; subst h
+        exact ⟨Remote.inv_new _ _ _ _, rfl, rfl⟩
+  · unfold Endpoint.newLate at h
+    split at h
+    · cases h
+    · injection h with h; subst h
+      exact ⟨Remote.inv_new _ _ _ _, rfl, rfl⟩
+
+/-- **implicit_open_each_once at the endpoint** — for every role, limits, windows, shipped strategy, whether or
+not the peer's transport parameters are known at the start, and EVERY interleaving of peer frames (any kind,
+any stream id, legal or not), single `accept_bi` / `accept_uni` polls (Pending or Ready), `drain`s, the two
+halves of "parameters ready" (`recv_remote_params`, source connection id), local opens, MAX_STREAMS and
+STREAMS_BLOCKED (as long as no panic under the `RemoteStreamIds` mutex ended the connection): per kind, the
+streams handed to the application so far followed by the streams still queued in the listener are EXACTLY the
+peer stream indices `0 .. unallocated-1` in increasing order — nothing is lost, duplicated or reordered by a
+poll that comes too early; what was handed out is duplicate free. -/
+theorem offered_each_once (role : Role) (lb lu pb pu : Nat) (win : Windows) (k : CtrlSt) (e0 : Endpoint)
+    (h0 : Endpoint.new role lb lu pb pu win k = some e0 ∨ Endpoint.newLate role lb lu pb pu win k = some e0)
+    (ops : List EOp) :
+    let e := e0.run ops
+    e.rem.poisoned = false →
+    (ofDir e.offered .bi ++ e.listenBi = idsFrom e.rem.role .bi 0 (e.rem.unalloc.get .bi)) ∧
+    (ofDir e.offered .uni ++ e.listenUni = idsFrom e.rem.role .uni 0 (e.rem.unalloc.get .uni)) ∧
+    e.offered.Nodup := by
+  intro e hp
+  have h := Endpoint.offer_run e0 ops (Endpoint.offer_init h0)
+  rcases h with h | h
+  · rw [hp] at h; cases h
+  · have hb := h.bi; rw [h.rinv .bi] at hb
+    have hu := h.uni; rw [h.rinv .uni] at hu
+    refine ⟨hb, hu, ?_⟩
+    apply nodup_of_ofDir
+    intro d
+    have key : ∀ (l q : List Nat) (n : Nat), l ++ q = idsFrom e.rem.role d 0 n → l.Nodup := by
+      intro l q n hl
+      have := idsFrom_nodup e.rem.role d 0 n
+      rw [← hl] at this
+      exact (List.nodup_append.1 this).1
+    cases d
+    · exact key _ _ _ hb
+    · exact key _ _ _ hu
+
+/-- Once the peer's parameters are ready, a poll of `accept_bi` never withholds a queued stream, and `drain`
+empties both queues: together with `offered_each_once`, everything implicitly opened HAS been offered. -/
+theorem accept_progress (e : Endpoint) (hr : e.ready = true) :
+    (∀ s t, e.listenBi = s :: t → (e.step .acceptBi).2 = .accepted (some s)) ∧
+    (∀ s t, e.listenUni = s :: t → (e.step .acceptUni).2 = .accepted (some s)) ∧
+    (e.step .drain).1.listenBi = [] ∧ (e.step .drain).1.listenUni = [] := by
+  refine ⟨?_, ?_, ?_, ?_⟩
+  · intro s t hl; simp [Endpoint.step, hr, hl]
+  · intro s t hl; simp [Endpoint.step, hl]
+  · simp [Endpoint.step, hr]
+  · simp [Endpoint.step]
+
+/-- The interleaving of seeded change c12r2-1 (server, peer parameters late): the peer uses bidi stream 2
+(id 8), the application polls `accept_bi` twice before the parameters are ready, then they arrive: streams 0, 4,
+8 are all still offered, lowest first. -/
+example : ∃ e0, Endpoint.newLate .server 8 8 3 3 ⟨100, 100, 100⟩ (.consistent ⟨8, 8⟩) = some e0 ∧
+    ((e0.run [.frame .stream 8 0 2 false, .acceptBi, .acceptBi, .rparams, .rscid]).step .drain).2
+      = .offered [0, 4, 8] [] ∧
+    ((e0.run [.frame .stream 8 0 2 false]).step .acceptBi).2 = .accepted none := by
+  refine ⟨_, rfl, ?_, ?_⟩ <;> decide
 
 end GmQuic.StreamRules
